@@ -148,6 +148,10 @@ func (g *Gen) pkg(name string, foreign []target) (*Pkg, []target) {
 			n := g.uniq(g.typeNames, typeWords, nil)
 			pfx := strcase.ToScreamingSnake(n) + "_"
 			f.ProtoEnums = append(f.ProtoEnums, PEnum{Name: n, Values: []string{pfx + "UNSPECIFIED", pfx + "ONE", pfx + "TWO"}})
+			g.prefixes[pfx] = true
+			for _, v := range []string{"UNSPECIFIED", "ONE", "TWO"} {
+				g.prefixes["val:"+pfx+v] = true
+			}
 			local = append(local, target{pkg: name, schema: n, kind: KEnum, local: true})
 		}
 		pkg.Files = append(pkg.Files, f)
@@ -330,7 +334,47 @@ func (g *Gen) enum(name string, pkgLevel bool) *Enum {
 		g.prefixes[eff] = true
 	}
 	e.Opts = g.enumOpts(e.Prefix, name)
+	if pkgLevel {
+		// enum VALUES live in the scope enclosing the enum: no two enums of the package may yield one value name
+		// (e.g. BarBaz with option X_UNSPECIFIED and BarBazX both give BAR_BAZ_X_UNSPECIFIED)
+		for !claimValues(g.prefixes, e.Prefix, name, e.Opts) {
+			g.counter++
+			e.Prefix = fmt.Sprintf("P%d_", g.counter)
+			g.prefixes[e.Prefix] = true
+			e.Opts = []string{"ONE", "TWO"}
+		}
+	}
 	return e
+}
+
+// enumValueNames: the value names an enum puts into its enclosing scope (implicit zero first).
+func enumValueNames(prefix, name string, opts []string) []string {
+	pfx := prefix
+	if pfx == "" {
+		pfx = strcase.ToScreamingSnake(name) + "_"
+	}
+	out := []string{pfx + "UNSPECIFIED"}
+	for _, o := range opts {
+		if !strings.HasPrefix(o, pfx) {
+			o = pfx + o
+		}
+		out = append(out, o)
+	}
+	return out
+}
+
+// claimValues marks the value names of an enum in its scope; false (nothing marked) when one is taken.
+func claimValues(scope map[string]bool, prefix, name string, opts []string) bool {
+	vals := enumValueNames(prefix, name, opts)
+	for _, v := range vals {
+		if scope["val:"+v] {
+			return false
+		}
+	}
+	for _, v := range vals {
+		scope["val:"+v] = true
+	}
+	return true
 }
 
 func (g *Gen) enumOpts(prefix, name string) []string {
@@ -641,6 +685,13 @@ func (g *Gen) typed(kind, propName string, depth int, path []string, taken map[s
 		t.Opts = g.enumOpts(t.Prefix, eff)
 		if len(t.Opts) == 0 {
 			t.Opts = []string{"ONLY"} // an inline enum without options parses to an unset schema
+		}
+		for !claimValues(taken, t.Prefix, eff, t.Opts) {
+			g.counter++
+			t.Prefix = fmt.Sprintf("E%d_", g.counter)
+			effPfx = t.Prefix
+			taken["pfx:"+effPfx] = true
+			t.Opts = []string{"ONLY"}
 		}
 		f.Ref = t
 		if g.chance(1, 5) {
